@@ -5,29 +5,44 @@ import json
 import os
 
 VERIF = os.path.dirname(os.path.dirname(os.path.abspath(__file__)))
-TECH = 'contract-based deductive verification: CBMC 6.11 function contracts + loop contracts (goto-instrument --dfcc) on functions sliced verbatim from /repo each run'
 TRUST = ('trusted: /verif/env stubs (containers, cp_data_t, sinks), desugaring rules of tools/slicer.py, CBMC C++ front end + DFCC + SAT back end; '
          'assumed: the glue assumptions G and assumed contracts listed in the evidence file')
 
+TECH = ('contract-based deductive verification: CBMC 6.11 function contracts + loop contracts (goto-instrument --dfcc --enforce-contract / --replace-call-with-contract / '
+        '--apply-loop-contracts) on functions sliced verbatim from /repo on every run; a few large functions (do_space, the loop bodies of do_blank_lines / space_text, the list '
+        'primitives, the enum round-trip lemmas) are checked as direct verification conditions (assume requires / call the real function / assert ensures, loops unwound to a '
+        'stated complete bound with unwinding assertions)')
+
 CLAIMS = {
     'C02': ('Kernel proof of the mechanisms that keep the token stream intact: the chunk-list primitives (ChunkListManager: every operation preserves the doubly-linked-list '
-            'invariant and changes the sequence only as specified), the tokenizer white-space primitives (only white space is ever discarded, whole terminators consumed). '
-            'The passes between tokenizer and output are glue assumptions.', '4 C02'),
-    'C03': ('Kernel proof, literal half only: add_text()/add_char() emit the characters of a literal chunk unchanged (no tab expansion when is_literal). The comment writers are out of reach of the C++ front end and NOT covered.', '4 C03'),
-    'C04': ('Kernel proof of the option gating of the code-modifying passes.', '4 C04'),
-    'C06': ('Kernel proof of memory safety, absence of signed overflow and termination (decreases clauses) for the decoders of unicode.cpp and the tokenizer white-space primitives, for inputs of any length; progress contracts (true => cursor advanced, false => restored).', '4 C06'),
-    'C07': ('Kernel proof: ignored text is written raw by add_text(is_ignored) (frame excludes all column/space state) and the blank-line path of the capture consumes only blanks/terminators with an exact count.', '4 C07'),
-    'C08': ('Kernel proof: add_char() is the single line-break writer (no raw CR/LF reaches write_char; lone CR and CR LF give one break), the terminator census, the choice of cpd.newline and whole-terminator consumption in the tokenizer.', '4 C08'),
+            'invariant and changes the sequence only as specified), the tokenizer white-space primitives (only white space is ever discarded, whole terminators consumed), the '
+            'token-fusion guard (space_text core: PCF_FORCE_SPACE for back-to-back words / fusing punctuators; ensure_force_space / space_needed honour it), output_to_column '
+            '(columns never move left) and the dispatch of output_text (every chunk text written once, after moving to its column). The passes between tokenizer and output are glue assumptions.', '4 C02, 9'),
+    'C03': ('Kernel proof, literal half only: add_text()/add_char() emit the characters of a literal chunk unchanged (no tab expansion when is_literal) and output_text hands every chunk text to add_text '
+            'exactly once with is_literal == Is(CT_STRING). The comment writers are out of reach of the C++ front end and NOT covered.', '4 C03, 9'),
+    'C04': ('Kernel proof of the option gating of the code-modifying passes in uncrustify_file().', '4 C04'),
+    'C06': ('Kernel proof of memory safety, absence of signed overflow and termination (decreases clauses) for the decoders of unicode.cpp and the tokenizer white-space primitives, for inputs of any length; '
+            'progress contracts (true => cursor advanced, false => restored); output once and last in uncrustify_file().', '4 C06'),
+    'C07': ('Kernel proof: while processing is off parse_next() asks parse_ignored first; ignored text is written raw by add_text(is_ignored) (no column/space state touched) and by nothing else '
+            '(output_text dispatch); the blank-line path of the capture consumes only blanks/terminators with an exact count; cpd.unc_off is cleared after every file.', '4 C07, 9'),
+    'C08': ('Kernel proof: add_char() is the single line-break writer (no raw CR/LF reaches write_char; lone CR and CR LF give one break), output_text emits line breaks only through it, the terminator census, '
+            'the choice of cpd.newline, whole-terminator consumption in the tokenizer, census reset per file.', '4 C08, 9'),
     'C09': ('Kernel proof: the UTF-8/UTF-16 codec, BOM/encoding detection policy and per-encoding writers of src/unicode.cpp against contracts from RFC 3629/2279 and Unicode D91, for all code points and byte vectors of any length.', '4 C09'),
-    'C11': ('Kernel proof: uncrustify_end() re-establishes the start-of-file value of every per-file field of cpd.', '4 C11'),
-    'C12': ('Kernel proof: bout_content_matches() returns true exactly for byte-equal buffers; write_byte() capture branch; do_source_file() performs no file-system write under --check and none under --if-changed when unchanged.', '4 C12'),
-    'C13': ('Kernel proof (safety half): call-order typestate of do_source_file() over all outcomes of every libc call: target never opened for writing, rename only after a successful close, failures exit non-zero. Crash points are not expressible.', '4 C13'),
-    'C14': ('Kernel proof (per-run protocol): backup_copy_file() on a ghost file system and the ordering md5-after-rename in do_source_file(). Histories are argued by a one-step invariant, not machine checked.', '4 C14'),
-    'C15': ('Kernel proof: generated to_string/convert_string are inverse for every enum value; string-value quoting round trip is a bounded stand-in.', '4 C15'),
-    'C16': ('Kernel proof: range validation of bounded options, assign-only-on-success of the readers, nl_max cross check.', '4 C16'),
-    'C17': ('Kernel proof: add_char() buffers blanks and flushes them only in front of a character; tab-after-space guard with the right option; add_text == sequence of add_char.', '4 C17'),
-    'C19': ('Kernel proof: do_space() returns the configured value of exactly the option it logs, for all token neighbourhoods and all option values at once.', '4 C19'),
-    'C20': ('Kernel proof: blank_line_max/blank_line_set caps, newlines_eat_start_end policy, nl_max cross check.', '4 C20'),
+    'C11': ('Kernel proof: uncrustify_end() re-establishes the start-of-file value of every per-file field of cpd (frame included); do_source_file() restores a forced language and rebuilds the keyword table for every file.', '4 C11, 9'),
+    'C12': ('Kernel proof: bout_content_matches() returns true exactly for byte-equal buffers; write_byte() capture branch; do_source_file() performs no file-system write under --check and none under --if-changed when unchanged; '
+            'the capture buffer is emptied after every file.', '4 C12'),
+    'C13': ('Kernel proof (safety half): call-order typestate of do_source_file() over all outcomes of every libc call: target never opened for writing, rename only after a successful close with no write error, failures exit non-zero; '
+            'backup_copy_file() returns EX_OK only with a complete backup. Crash points are not expressible.', '4 C13'),
+    'C14': ('Kernel proof (per-run protocol): backup_copy_file() on a ghost file system; in do_source_file() the md5 is recorded only after the target is final and only when this run ensured the backup. Histories are argued by a one-step invariant, not machine checked.', '4 C14, 9'),
+    'C15': ('Kernel proof: generated to_string/convert_string are inverse for every enum value. String values, custom types and file_ext mappings are NOT covered.', '4 C15'),
+    'C16': ('Kernel proof: BoundedOption::validate accepts exactly [min,max]; read_number<signed/unsigned> and Option<bool>::read assign only on success, store exactly the number written (no truncation), stay inside the value text '
+            '(memory safety for every text) and diagnose every rejection; too_big_for_nl_max covers every documented count option.', '4 C16, 9'),
+    'C17': ('Kernel proof: add_char() buffers blanks and flushes them only in front of a character; tab-after-space guard with the right option; add_text == sequence of add_char; output_to_column / cmt_output_indent '
+            '(tabs only when allowed, never after a blank); output_text passes allow_tabs == false whenever the effective indent_with_tabs / pp_indent_with_tabs is 0; end-of-file policy under C20.', '4 C17, 9'),
+    'C19': ('Kernel proof: do_space() returns the configured value of exactly the option it logs, for all token neighbourhoods and all option values at once; space_needed / space_text core / output_text (sp_before_nl_cont) '
+            'turn the four values into columns as the property says. One recorded known finding (sp_bool with pos_bool).', '4 C19, 9'),
+    'C20': ('Kernel proof: blank_line_max/blank_line_set caps, one iteration of do_blank_lines (at most nl_max line breaks when no count option asks for more), can_increase_nl (eat_blanks_* next to braces), '
+            'newlines_eat_start_end policy, nl_max cross check.', '4 C20, 9'),
 }
 
 NOT_APPLICABLE = {
@@ -60,11 +75,12 @@ def main():
                   'enable': 'none needed: checks slice the unmodified sources of /repo\'s working tree; no hook code exists in /repo',
                   'baseline_off_cmd': 'cmake --build /repo/_build -j16 && ctest --test-dir /repo/_build -j8 --timeout 900',
                   'source_commits': [], 'add_only': True},
+        # repairs of genuine defects (unguarded 'fix:' commits in /repo, see known_findings.txt): 924acbc, bad5764, 501cb7c, fc1e7bc, 4298818
         'engines': [{'name': 'cbmc-contracts', 'path': '/verif/check.py', 'serves_properties': have,
                      'kind_free_text': 'verbatim slices of /repo C++ functions + CBMC 6.11 code contracts (goto-instrument --dfcc --enforce-contract / --replace-call-with-contract / --apply-loop-contracts), cadical SAT back end'}],
         'checks': checks,
         'not_applicable': [{'property_id': k, 'reason': v} for k, v in sorted(na.items())],
-        'notes': 'exit 2 = undecided (slice/front-end/timeout), never reported as VIOLATION; thorough = quick + mutation self-test of every kernel',
+        'notes': 'exit 2 = undecided (slice/front-end/timeout/frame changed), never reported as VIOLATION; thorough = quick + thorough-only proofs (DFCC form of do_space) + mutation self-test of every kernel',
     }
     with open(os.path.join(VERIF, 'MANIFEST.json'), 'w') as f:
         json.dump(doc, f, indent=1)
